@@ -24,8 +24,16 @@ void vf_observe(uint64_t);
 #define VF_STOP() do { __CPROVER_assume(false); } while (0)
 // exact-size heap buffer with arbitrary contents (sizes are always concrete)
 static inline char* vf_buffer(unsigned n) {
-  char* b = (char*)malloc(n ? n : 1);
+  char* b = (char*)malloc(n);
   __CPROVER_assume(b != 0);
   for (unsigned i = 0; i < n; i++) b[i] = (char)nondet_u8();
   return b;
 }
+// #include VF_REPO_SRC(lib/Core/X.cpp): pulls a repository translation unit into
+// the harness so that static functions and anonymous-namespace classes are nameable.
+#ifndef VF_REPO
+#define VF_REPO /repo
+#endif
+#define VF_STR2(x) #x
+#define VF_STR(x) VF_STR2(x)
+#define VF_REPO_SRC(rel) VF_STR(VF_REPO/rel)
